@@ -1100,3 +1100,48 @@ def dispatch_fn(text, features):
 
 def dispatch_unit(text, features):
     return "use vstd::prelude::*;\nverus! {\n" + DISPATCH_MODEL + dispatch_fn(text, features) + vlib.verus_canary("canary_dispatch", "x: u64", []) + "\n} // verus!\nfn main() {}\n"
+
+
+# ---- guard_expression_true (src/interpreter/src/expressions.rs, whole) ---------------------------------------------------------------------
+GUARDTRUE_MODEL = """
+#[derive(Clone, Copy, PartialEq, Eq, Structural)]
+pub enum Value { Bool(bool), Other(u64) }
+pub struct Expression { pub id: u64 }
+pub struct Environment { pub id: u64 }
+pub struct Interpreter { pub id: u64 }
+pub struct MechError { pub id: u64 }
+pub uninterp spec fn ev(e: Expression, env: Environment) -> Option<Value>;          // expression(e, Some(env), p); None = error
+#[verifier::external_body]
+pub fn expression(e: &Expression, env: Option<&Environment>, p: &Interpreter) -> (r: Result<Value, MechError>)
+  requires env is Some,
+  ensures (match r { Ok(v) => ev(*e, *env.unwrap()) == Some(v), Err(_) => ev(*e, *env.unwrap()) is None }),
+{ unimplemented!() }
+#[verifier::external_body]
+pub fn invalid_guard_error() -> (e: MechError) { unimplemented!() }
+// ---- THE CONTRACT (C16: "whose guard is true"): a guard holds iff it evaluates -- under the bindings of the arm's pattern -- to the boolean true; a guard that fails to
+// evaluate, or evaluates to something that is not a boolean, is an error (never "true", never silently "false")
+pub open spec fn guard_spec(g: Expression, env: Environment) -> Option<bool> {
+  match ev(g, env) { Some(Value::Bool(b)) => Some(b), _ => None }
+}
+"""
+
+
+def guard_true_fn(text, features):
+    """`guard_expression_true` (whole body): the error constructor -> `invalid_guard_error()`, `*flag.borrow()` -> `flag`, `MResult` -> `Result<_, MechError>`; cfg evaluated"""
+    sig, body = extract_fn(text, "guard_expression_true")
+    b = apply_cfg(re.sub(r"//[^\n]*", "", body).replace("\r", ""), features).strip()[1:-1]
+    while True:
+        m = re.search(r"Err\(\s*MechError::new\(", b)
+        if not m:
+            break
+        e = match_brace(b, m.start() + 3, "(", ")")
+        b = b[:m.start()] + "Err(invalid_guard_error())" + b[e:]
+    b = re.sub(r"\*(\w+)\.borrow\(\)", r"\1", b)
+    if re.search(r"\b(MechError::new|borrow)\b", b):
+        raise AnchorLost("guard_expression_true: the body is outside the transcription rules")
+    return ("fn guard_expression_true(guard: &Expression, env: &Environment, p: &Interpreter) -> (res: Result<bool, MechError>)\n"
+            "  ensures (match guard_spec(*guard, *env) { Some(b) => res == Ok::<bool, MechError>(b), None => res is Err }),\n{\n" + b + "\n}\n")
+
+
+def guard_true_unit(text, features):
+    return "use vstd::prelude::*;\nverus! {\n" + GUARDTRUE_MODEL + guard_true_fn(text, features) + vlib.verus_canary("canary_guard_true", "x: u64", []) + "\n} // verus!\nfn main() {}\n"
